@@ -115,9 +115,15 @@ def run(ctx):
         elif r.random() < 0.2:
             # use after write: a selection whose fields were read is written (writing may compact its buffer), then modified and read / written again
             script = ["index", "allfields", "write", "replace", "allfields", "write"]
+        elif r.random() < 0.12:
+            # everything read once, a field replaced (the lazy table forgets what it had parsed), then a filter that matches nothing, then everything read again
+            script = ["allfields", "replace", "emptymask", "allfields", "write"]
         for step in range(r.randint(1, maxops) if script is None else len(script)):
             nrows = len(E)
             op = script[step] if script else r.choice(["len", "field", "field", "slice", "mask", "fancy", "index", "concat", "replace", "tolist", "write", "write"])
+            force_empty = op == "emptymask"
+            if force_empty:
+                op = "mask"
             if op == "index":
                 op = r.choice(["slice", "mask", "fancy"]) if script else "int"
             wit = dict(wit0, program=history + [op])
@@ -265,7 +271,7 @@ def run(ctx):
                 history.append(["slice", [sl.start, sl.stop, sl.step]])
             elif op == "mask":
                 mk = np.array([r.random() < 0.6 for _ in range(nrows)], dtype=bool)
-                if r.random() < 0.12:
+                if r.random() < 0.12 or force_empty:
                     mk[:] = False           # a filter that matches nothing: every later step works on a table without rows
                 if r.random() < 0.3 and nrows:
                     mk = mk.tolist()        # a mask given as a Python list of bools (the form the docstrings use)
